@@ -60,16 +60,23 @@ def run(ctx):
     b, paths = g.ok_paths(FROM_FEN)
     where = loc(b)
     oks = [p for p in paths if p.end == "return" and p.ret[0] == "agg" and p.ret[2] == "Ok"]
-    pulls = [k for k in f.bodies if k.startswith(FROM_FEN + "::{closure") and f.bodies[k].kind == "Closure"]
-    pull = None
-    for k in pulls:
-        cps = sym.SymExec(f, f.bodies[k]).run()
-        for p in cps:
-            if p.ret is not None and p.ret[0] == "call" and p.ret[1].endswith("::ok_or"):
-                v = p.ret[2][1]
-                if v[0] == "enum" and v[2] == "MissingField" and p.ret[2][0][0] == "call" and p.ret[2][0][1].endswith("Iterator>::next"):
-                    pull = k
-    ctx.check(pull is not None, "pull:missing-field", "no field pull of the form parts.next().ok_or(MissingField) found", where,
+    # a pull is a next() on the iterator over the space-separated parts, made directly or inside an inlined helper
+    def is_pull(e):
+        return e.kind == "call" and e.name.endswith("Iterator>::next") and "::Split<" in e.name
+    MISSING = ("enum", "cozy_chess::board::parse::FenParseError", "MissingField")
+    # a missing k-th field (k-th pull yields nothing) is reported as MissingField before any further stage runs
+    missing_at = set()
+    for p in paths:
+        if not (p.end == "return" and p.ret[0] == "agg" and p.ret[2] == "Err" and sym.contains(p.ret, lambda x: x == MISSING)):
+            continue
+        pl = [e for e in p.events if is_pull(e)]
+        if not pl:
+            continue
+        later = [e for e in p.events if e.kind == "call" and e.idx > pl[-1].idx and (g.is_stage(e.name) or g.validator_role(e.name) is not None)]
+        if not later:
+            missing_at.add(len(pl) - 1)
+    ctx.check(missing_at >= set(range(6)), "pull:missing-field",
+              "not every one of the six field pulls reports MissingField when the input has run out (reported for pulls %s)" % sorted(missing_at), where,
               sample={"pull": "parts.next().ok_or(MissingField)"})
     for p in oks:
         evs = [e for e in p.events if e.kind == "call" and e.depth == 0]
@@ -77,26 +84,31 @@ def run(ctx):
         oksp = len(split) == 1 and split[0].args[0] == ("ptr", ("P", "fen"), (), False) and split[0].args[1] == ("int", 32, "char")
         ctx.check(oksp, "fields:split-on-space", "fields are not obtained by splitting the whole input on single spaces", where, sample={"split": "fen.split(' ')"})
         seq = []
-        for e in evs:
-            if e.name == pull:
+        for e in p.events:
+            if is_pull(e):
                 seq.append(("pull", e))
-            elif g.is_stage(e.name):
+            elif e.kind == "call" and e.depth == 0 and g.is_stage(e.name):
                 seq.append(("stage", e))
         # each stage's text argument is the payload of the pull immediately before it
         nst = 0
         okorder = True
         last_pull = None
+        npull = 0
         for kind, e in seq:
             if kind == "pull":
                 last_pull = e
+                npull += 1
             else:
                 nst += 1
                 arg = e.args[1]
                 if last_pull is None or not sym.contains(arg, lambda x: x == last_pull.ret):
                     okorder = False
                 last_pull = None
-        ctx.check(nst == 6 and okorder and len([1 for k_, _ in seq if k_ == "pull"]) == 6, "fields:six-pulls-feed-six-stages",
-                  "an Ok path does not pull exactly six fields, each feeding the next stage (%d stages)" % nst, where, sample={"stages": [e.name.rsplit("::", 1)[-1] for k_, e in seq if k_ == "stage"]})
+        # the pull after the sixth stage is the end-of-input test below
+        ctx.check(nst == 6 and okorder and npull in (6, 7), "fields:six-pulls-feed-six-stages",
+                  "an Ok path does not pull exactly six fields, each feeding the next stage (%d stages, %d pulls)" % (nst, npull), where, sample={"stages": [e.name.rsplit("::", 1)[-1] for k_, e in seq if k_ == "stage"]})
+        seq = [x for x in seq if x[0] == "stage"] or seq
+        evs = [e for e in p.events if e.kind == "call"]
         # after the last stage: a further next() must be None
         nexts = [e for e in evs if e.name.endswith("Iterator>::next") and e.idx > seq[-1][1].idx] if seq else []
         tested = False
